@@ -743,7 +743,11 @@ class Request(interfaces.Request, BaseUnicastRequest):
             if not self.observation.cancelled:
                 # (if the application already cancelled the observation, there
                 # is nobody left to tell that it did not come about)
-                self.observation.error(error.NotObservable())
+                self.observation.error(
+                    first_event.exception
+                    if first_event.exception is not None
+                    else error.NotObservable()
+                )
             return
 
         if first_event.message.opt.observe is None:
